@@ -236,7 +236,8 @@ def main(ctx, replay=None):
     ctx.cov["end_to_end_runs"] = ne2e
     if not stub_ok and ne2e < 2:
         raise MachineryError("neither the injected-field path nor the end-to-end path of C07 could run")
-    usable = [r for r in records if r["pd"] and max(abs(x) for row in r["c"] for x in row) < 30000 and r["rho"] * r["vp"] ** 2 < 2 ** 30 // 3]
+    usable = [r for r in records if r["pd"] and max(abs(x) for row in r["c"] for x in row) < 30000 and r["rho"] * r["vp"] ** 2 < 2 ** 30 // 3
+              and max(abs(x) for row in r["s"] for x in row) * max(abs(x) for row in r["c"] for x in row) * 6 < 2 ** 31]
     ok, consumed, tres = validate_trace(ctx, "Trace_Averages", "Trace_Averages.cfg", usable, name="averages", timeout=900)
     ctx.cov["records"] = len(usable)
     if ctx.tier == "thorough" and ok and len(usable) > 5:
